@@ -21,6 +21,9 @@ CONFIGS = {
     # until(<date condition>) left by the body's own exception / completion in the step the date fires
     'until_time': dict(B, NRoots=1, MaxActs=2, MaxScopes=1, RootOps=4, TaskOps=1,
                        Menu={'instant', 'sleep', 'leave', 'until_time', 'raise', 'do'}),
+    # until(<connective of flags>): the notification fires when the connective becomes true
+    'until_conn': dict(B, NRoots=2, MaxActs=3, MaxScopes=1, RootOps=3, TaskOps=1, NFlags=2, CondSel='flat',
+                       Menu={'instant', 'sleep', 'leave', 'until_conn', 'fset', 'do'}),
     # a task cancelled while it is inside its own scope whose child fails in the same time step
     'cancel_nested': dict(B, NRoots=1, MaxActs=3, MaxScopes=2, RootOps=4, TaskOps=3, Horizon=1,
                           Menu={'instant', 'sleep', 'open', 'do', 'cancel', 'raise', 'nocatch'}),
